@@ -2,19 +2,21 @@
 #include "../../engine/pbt/gen.h"
 using namespace vf;
 namespace {
-enum K { SUBSCRIBE = 0, SUBSCRIBE_SELFVIEW, UNSUBSCRIBE, SELF_INVALIDATE_NEXT, NOTIFY, SHRINK, SHRINK_ALL, EXISTS, DEPTH, NOTIFY_CONCRETE, SHRINK_DERIVED };
+enum K { SUBSCRIBE = 0, SUBSCRIBE_SELFVIEW, UNSUBSCRIBE, SELF_INVALIDATE_NEXT, NOTIFY, SHRINK, SHRINK_ALL, EXISTS, DEPTH, NOTIFY_CONCRETE, SHRINK_DERIVED, SUBSCRIBE_MANY, UNSUBSCRIBE_SIBLINGS };
 // operands: a -> depth, b -> packed level choices, c -> per-level "regex" bits
 Register r06("C06", [](Tier t) {
     auto ops = genOps({{SUBSCRIBE, 16, 15, 9999, 15}, {SUBSCRIBE_SELFVIEW, 3, 15, 9999, 15}, {NOTIFY, 5, 15, 9999, 15}, {NOTIFY_CONCRETE, 14, 31, 9999, 15}, {UNSUBSCRIBE, 4, 31, 0, 0},
-                       {SELF_INVALIDATE_NEXT, 2, 31, 0, 0}, {SHRINK, 1, 15, 9999, 15}, {SHRINK_DERIVED, 2, 31, 9999, 63}, {SHRINK_ALL, 1, 7, 0, 0}, {EXISTS, 1, 15, 9999, 15}}, t == THOROUGH ? 100 : 50);
+                       {SELF_INVALIDATE_NEXT, 2, 31, 0, 0}, {SHRINK, 1, 15, 9999, 15}, {SHRINK_DERIVED, 2, 31, 9999, 63}, {SHRINK_ALL, 1, 7, 0, 0}, {EXISTS, 1, 15, 9999, 15},
+                       {SUBSCRIBE_MANY, 2, 31, 63, 7}, {UNSUBSCRIBE_SIBLINGS, 1, 31, 0, 1}}, t == THOROUGH ? 100 : 50);
     // h[0]: argument signature (6 kinds), h[1]: SubjectRouter | ConcurrentSubjectRouter, h[2]: size of the name universe (3..6)
-    return genCase("C06", genHeader({{0, 5}, {0, 1}, {0, 3}}), ops);
+    // h[2]: name universe 3..6 names (0..3), or a WIDE universe of 40 / 64 names (4, 5)
+    return genCase("C06", genHeader({{0, 5}, {0, 1}, {0, 5}}), ops);
 });
 Register r13("C13", [](Tier t) {
     auto ops = genOps({{SUBSCRIBE, 14, 15, 9999, 15}, {SUBSCRIBE_SELFVIEW, 2, 15, 9999, 15}, {UNSUBSCRIBE, 9, 31, 0, 0}, {SHRINK_DERIVED, 8, 31, 9999, 63}, {SHRINK, 3, 15, 9999, 15}, {SHRINK_ALL, 3, 7, 0, 0},
-                       {EXISTS, 6, 15, 9999, 15}, {NOTIFY, 3, 15, 9999, 15}, {SELF_INVALIDATE_NEXT, 2, 31, 0, 0}, {NOTIFY_CONCRETE, 3, 31, 9999, 15}, {DEPTH, 1, 0, 0, 0}},
+                       {EXISTS, 6, 15, 9999, 15}, {NOTIFY, 3, 15, 9999, 15}, {SUBSCRIBE_MANY, 2, 31, 63, 7}, {UNSUBSCRIBE_SIBLINGS, 3, 31, 0, 1}, {SELF_INVALIDATE_NEXT, 2, 31, 0, 0}, {NOTIFY_CONCRETE, 3, 31, 9999, 15}, {DEPTH, 1, 0, 0, 0}},
                       t == THOROUGH ? 70 : 36);
     // signatures () and const std::string& only (h[0] in {0, 2})
-    return genCase("C13", rc::gen::map(genHeader({{0, 1}, {0, 1}, {0, 3}}), [](std::vector<int> h) { h[0] *= 2; return h; }), ops);
+    return genCase("C13", rc::gen::map(genHeader({{0, 1}, {0, 1}, {0, 5}}), [](std::vector<int> h) { h[0] *= 2; return h; }), ops);
 });
 } // namespace
